@@ -26,6 +26,10 @@ type Params struct {
 	SlowReady bool     `json:"slow_ready"` // connections become ready through an environment event, not at creation
 	Env       []string `json:"env"`        // "kill:1" (kill the n-th created connection), "cancel:1" (cancel caller n's context)
 	Probe     bool     `json:"probe"`      // finish with an uncancelled probe Invoke that must be served
+	// Staged: callers are started one at a time, each only after the previous one reached its blocking state (the first
+	// is inside its call and stays there until the environment event "finish", the others are registered waiters); the
+	// environment events then race freely. A sharp driver for hand-over collisions that need several registered waiters.
+	Staged bool `json:"staged,omitempty"`
 }
 
 type conn struct {
@@ -41,9 +45,11 @@ type conn struct {
 }
 
 type world struct {
-	o     *sx.Obs
-	conns []*conn
-	p     Params
+	o      *sx.Obs
+	conns  []*conn
+	p      Params
+	hold   bool // the first use of a connection stays in progress until released
+	inUse1 bool
 }
 
 func ctxDone(ctx context.Context) bool {
@@ -91,6 +97,10 @@ func (c *conn) Invoke(ctx context.Context, in bin.Encoder, out bin.Decoder) erro
 	}
 	c.inUse = who
 	c.o.Log("use-begin c%d by %s step=%d", c.n, who, vsched.Step())
+	if c.w.p.Staged && !c.w.inUse1 {
+		c.w.inUse1 = true
+		vsched.Cond("held-in-use", func() bool { return !c.w.hold })
+	}
 	vsched.Point("in-use")
 	c.inUse = ""
 	c.o.Log("use-end c%d by %s step=%d", c.n, who, vsched.Step())
@@ -105,7 +115,7 @@ func (nop) Decode(*bin.Buffer) error { return nil }
 
 // Body is the scenario driver.
 func Body(p Params, o *sx.Obs, dump func(dc *pool.DC) (total int64, free []pool.Conn, waiters int)) {
-	w := &world{o: o, p: p}
+	w := &world{o: o, p: p, hold: p.Staged}
 	root, stop := vctx.WithCancel(vctx.Background())
 	defer stop()
 	dc := pool.NewDC(root, 2, func() pool.Conn {
@@ -126,6 +136,16 @@ func Body(p Params, o *sx.Obs, dump func(dc *pool.DC) (total int64, free []pool.
 		k := k
 		ctx, cancel := vctx.WithCancel(root)
 		cancels[k] = cancel
+		if p.Staged && k > 1 {
+			// the previous caller must have reached its blocking state first
+			prev := k - 1
+			vsched.Cond("stage", func() bool {
+				if prev == 1 {
+					return w.inUse1
+				}
+				return o.Has(fmt.Sprintf("log[caller%d] Waiting for free connect", prev))
+			})
+		}
 		g.Go(fmt.Sprintf("caller%d", k), func() {
 			for i := 0; i < p.CallsEach; i++ {
 				o.Log("call-begin caller%d step=%d", k, vsched.Step())
@@ -133,6 +153,15 @@ func Body(p Params, o *sx.Obs, dump func(dc *pool.DC) (total int64, free []pool.
 				o.Log("call-end caller%d err=%v", k, err != nil)
 			}
 			callersDone++
+		})
+	}
+	if p.Staged {
+		last := p.Callers
+		vsched.Cond("stage-last", func() bool {
+			if last == 1 {
+				return w.inUse1
+			}
+			return o.Has(fmt.Sprintf("log[caller%d] Waiting for free connect", last))
 		})
 	}
 	for i, e := range p.Env {
@@ -153,6 +182,11 @@ func Body(p Params, o *sx.Obs, dump func(dc *pool.DC) (total int64, free []pool.
 			g.Go(name, func() {
 				o.Log("cancel caller%d", n)
 				cancels[n]()
+			})
+		case "finish":
+			g.Go(name, func() {
+				o.Log("finish first use")
+				w.hold = false
 			})
 		}
 	}
